@@ -367,6 +367,136 @@ static void corrKillough(vh::Rng& r, vh::Sink& sink, int cases)
     }
 }
 
+
+// ------------------------------------------------------------------------------------------
+// third round: the complete hysteresis object (relperm models -1..4, Killough Pc hysteresis, the three two-phase
+// system types, update(pcSw, krwSw, krnSw) with independent saturations)
+
+static std::shared_ptr<Opm::EclHysteresisConfig> fullCfg(bool enabled, int model, double modParam, double curvature, const std::string& flag)
+{
+    auto cfg = std::make_shared<Opm::EclHysteresisConfig>();
+    if (!enabled) return cfg;
+    const std::string txt = "RUNSPEC\nOIL\nWATER\nGAS\nSATOPTS\n HYSTER /\nPROPS\nEHYSTR\n " + num(curvature) + " " + std::to_string(model) + " 1.0 " + num(modParam) + " " + flag + " /\n";
+    Opm::Parser parser;
+    const auto deck = parser.parseString(txt);
+    const Opm::Runspec rs(deck);
+    cfg->initFromState(rs);
+    return cfg;
+}
+
+// an EclEpsScalingPointsInfo consistent with the scaled points of a two-phase law (optionally perturbed)
+static Opm::EclEpsScalingPointsInfo<double> infoFor(vh::Rng& r, int sys, const Points& s, bool noisy)
+{
+    Opm::EclEpsScalingPointsInfo<double> in{};
+    const double sncr = 1.0 - s.v[8], snmax = 1.0 - s.v[6], swcr = s.v[3], swmax = s.v[5];
+    const double w = 0.02 + 0.1 * r.unit();
+    in.Swl = 0.05; in.Sgl = 0.0; in.Swcr = 0.1; in.Sgcr = 0.05; in.Sowcr = 0.1; in.Sogcr = 0.1; in.Swu = 1.0; in.Sgu = 0.9;
+    in.maxPcow = s.v[9]; in.maxPcgo = s.v[9];
+    if (sys == 0) { in.Sgl = r.coin(3, 4) ? 0.0 : 0.03 * r.unit(); in.Swl = s.v[6] - in.Sgl; in.Sowcr = sncr; in.Swcr = swcr; in.Swu = swmax; in.maxPcgo = 1e4 * r.unit(); }
+    else if (sys == 1) { in.Swl = w; in.Sgcr = sncr - w; in.Sgu = snmax - w; in.Sogcr = swcr; in.Sgl = 1.0 - swmax - w; in.maxPcow = 1e4 * r.unit(); }
+    else { in.Sgcr = sncr; in.Sgu = snmax; in.Swcr = swcr; in.Swu = swmax; in.Sgl = 1.0 - swmax; in.Swl = s.v[0]; in.maxPcow = 0.6 * s.v[9]; in.maxPcgo = s.v[9] - in.maxPcow; }
+    if (noisy) {
+        double* f[] = {&in.Swl, &in.Sgl, &in.Swcr, &in.Sgcr, &in.Sowcr, &in.Sogcr, &in.Swu, &in.Sgu};
+        for (double* x : f) if (r.coin(1, 3)) *x = std::min(1.0, std::max(0.0, *x + 0.1 * (r.unit() - 0.5)));
+    }
+    return in;
+}
+static std::string infoStr(const Opm::EclEpsScalingPointsInfo<double>& in)
+{
+    return hxl({in.Swl, in.Sgl, in.Swcr, in.Sgcr, in.Sowcr, in.Sogcr, in.Swu, in.Sgu, in.maxPcow, in.maxPcgo});
+}
+
+struct Triple { double pc, krw, krn; };
+
+static std::vector<Triple> tripleHistory(vh::Rng& r, int n, int style, int coupling)
+{
+    std::vector<Triple> h;
+    std::vector<double> a = history(r, n, style), b = history(r, n, style), c = history(r, n, style);
+    if (r.coin(1, 3)) a[0] = 0.3 * r.unit();                        // a low first saturation: the "initial imbibition" branch
+    for (int i = 0; i < n; ++i) {
+        Triple t{a[i], a[i], a[i]};                                   // EclTwoPhaseMaterial: the same saturation three times
+        if (coupling == 1) t.krn = std::min(1.0, a[i] + 0.3 * b[i] * (1 - a[i]));   // three-phase oil-water: krnSw = 1 - So >= Sw
+        if (coupling == 2) { t.krw = b[i]; t.krn = c[i]; }
+        h.push_back(t);
+    }
+    if (n > 2 && r.coin(1, 4)) h[n - 1] = h[n - 2];                 // a repeated step
+    return h;
+}
+
+struct FullSetup {
+    int sys, model; bool enabled; std::string flag, bits; double modParam, curv;
+    Table tD, tI; Points uD, sD, uI, sI;
+    Opm::EclEpsScalingPointsInfo<double> infoD, infoI;
+    std::shared_ptr<Opm::EclHysteresisConfig> cfg;
+    Hyst::Params P;
+};
+
+static const Opm::EclTwoPhaseSystemType SYS[3] = {Opm::EclTwoPhaseSystemType::OilWater, Opm::EclTwoPhaseSystemType::GasOil, Opm::EclTwoPhaseSystemType::GasWater};
+
+static void makeFull(vh::Rng& r, FullSetup& F, int model, const std::string& flag, bool strict, bool same, bool scaling, bool noisy, bool enabled = true)
+{
+    F.sys = r.range(0, 2); F.model = model; F.flag = flag; F.enabled = enabled;
+    F.modParam = r.coin(1, 4) ? 0.0 : 0.3 * r.unit(); F.curv = r.coin(1, 6) ? 0.1 : 0.02 + 0.5 * r.unit();
+    F.tD = makeTable(r, strict); F.tI = same ? F.tD : makeTable(r, strict);
+    F.bits = scaling ? randomCfg(r) : std::string("00000000");
+    F.uD = unscaledOf(r, F.tD); F.uI = unscaledOf(r, F.tI);
+    F.sD = scaling ? perturb(r, F.uD, 1) : F.uD;
+    F.sI = same ? F.sD : (scaling ? perturb(r, F.uI, 1) : F.uI);
+    F.cfg = fullCfg(enabled, model, F.modParam, F.curv, flag);
+    F.infoD = infoFor(r, F.sys, F.sD, noisy);
+    F.infoI = same && !noisy ? F.infoD : infoFor(r, F.sys, F.sI, noisy);
+    if (!same && F.sys == 1) { const double dw = F.infoI.Swl - F.infoD.Swl; F.infoI.Swl -= dw; F.infoI.Sgcr += dw; F.infoI.Sgu += dw; F.infoI.Sgl += dw; }
+    F.P = Hyst::Params();
+    F.P.setConfig(F.cfg);
+    F.P.setDrainageParams(epsParams(F.bits, F.tD, F.uD, F.sD), F.infoD, SYS[F.sys]);
+    F.P.setImbibitionParams(epsParams(F.bits, F.tI, F.uI, F.sI), F.infoI, SYS[F.sys]);
+    F.P.finalize();
+}
+
+static std::string fullState(const Hyst::Params& P, bool changed, const std::vector<double>& probes)
+{
+    std::string a = hx(P.pcSwMdc()) + "/" + hx(P.pcSwMic()) + "/" + (P.initialImb() ? "1" : "0") + "/" + hx(P.krnSwMdc()) + "/" + hx(P.krwSwMdc()) + "/" +
+                    hx(P.deltaSwImbKrn()) + "/" + hx(P.Sncrt()) + "/" + hx(P.Swcrt()) + "/" + hx(P.KrwdHy()) + "/" + hx(P.Krwd_sncrt()) + "/" + hx(P.krnWght()) + "/" + (changed ? "1" : "0");
+    for (double q : probes) a += "/" + hx(Hyst::twoPhaseSatKrw(P, q)) + ":" + hx(Hyst::twoPhaseSatKrn(P, q)) + ":" + hx(Hyst::twoPhaseSatPcnw(P, q));
+    return a;
+}
+
+static void corrHystFull(vh::Rng& r, vh::Sink& sink, int cases)
+{
+    static const char* FLAGS[3] = {"KR", "PC", "BOTH"};
+    static const char* SYSN[3] = {"ow", "go", "gw"};
+    for (int c = 0; c < cases; ++c) {
+        FullSetup F;
+        const int model = r.range(0, 4);
+        const std::string flag = FLAGS[r.range(0, 2)];
+        const bool enabled = !r.coin(1, 12);
+        const bool same = r.coin(1, 5), scaling = r.coin(1, 3), noisy = r.coin(1, 4);
+        makeFull(r, F, model, flag, r.coin(), same, scaling, noisy, enabled);
+        const int style = r.range(0, 2), coupling = r.range(0, 2);
+        std::vector<Triple> h = tripleHistory(r, r.range(1, 16), style, coupling);
+        std::vector<double> probes;
+        for (int k = 0; k < 4; ++k) probes.push_back(r.unit());
+        probes.push_back(h.back().krn); probes.push_back(std::min(1.0, h.back().pc + 0.05 * r.unit()));
+        const Hyst::Params& P = F.P;
+        std::string a = hx(P.Sncrd()) + "/" + hx(P.Sncri()) + "/" + hx(P.Snmaxd()) + "/" + hx(P.Swcrd()) + "/" + hx(P.Swcri()) + "/" + hx(P.Swmaxd()) + "/" + hx(P.Swmaxi()) + "/" +
+                        hx(P.krwdMax()) + "/" + hx(P.Krwd_sncri()) + "/" + hx(P.Krwi_snmax()) + "/" + hx(P.Krwi_snrmax()) + "/" + hx(P.pcWght()) + "/" + hx(P.curvatureCapPrs());
+        a += " " + fullState(F.P, false, probes);
+        std::string hs;
+        for (size_t k = 0; k < h.size(); ++k) {
+            const bool chg = F.P.update(h[k].pc, h[k].krw, h[k].krn);
+            a += " " + fullState(F.P, chg, probes);
+            if (k) hs += ';';
+            hs += hx(h[k].pc) + "," + hx(h[k].krw) + "," + hx(h[k].krn);
+        }
+        sink.emit(std::string("satfunc.hystfull ") + SYSN[F.sys] + " " + (enabled ? "1" : "0") + " " + std::to_string(F.cfg->krHysteresisModel()) + " " + std::to_string(F.cfg->pcHysteresisModel()) + " " +
+                  hxl({F.cfg->modParamTrapped(), F.cfg->curvatureCapPrs()}) + " " + F.bits + " " + tableStr(F.tD) + " " + ptsStr(F.uD) + " " + ptsStr(F.sD) + " " +
+                  tableStr(F.tI) + " " + ptsStr(F.uI) + " " + ptsStr(F.sI) + " " + infoStr(F.infoD) + " " + infoStr(F.infoI) + " " + hs + " " + hxl(probes), a);
+        sink.count(std::string("full.sys=") + SYSN[F.sys]); sink.count("full.krModel=" + std::to_string(F.cfg->krHysteresisModel()));
+        sink.count("full.pcModel=" + std::to_string(F.cfg->pcHysteresisModel())); sink.count("full.coupling=" + std::to_string(coupling));
+        sink.count(F.P.initialImb() ? "full.initialImb" : "full.initialDrainage"); sink.count(scaling ? "full.scaled" : "full.unscaled");
+    }
+}
+
 // ------------------------------------------------------------------------------------------
 // property mode
 
@@ -502,6 +632,7 @@ int main(int argc, char** argv)
         corrEps(r, sink, thorough ? 12000 : 2000);
         corrHyst(r, sink, thorough ? 8000 : 1500);
         corrKillough(r, sink, thorough ? 4000 : 600);
+        corrHystFull(r, sink, thorough ? 6000 : 1000);
         sink.writeStats(out + "/stats.json");
         return 0;
     }
